@@ -210,7 +210,7 @@ func taintSinks(c *core.Ctx) []*Sink {
 	// S5: the Sentry report
 	if pk := p.Pkg("report"); pk != nil {
 		for _, fn := range p.HandFuncs() {
-			if load.FnPkg(fn) != pk.Types || fn.Name() == "ReportError" || fn.Name() == "PrintStackTrace" {
+			if load.FnPkg(fn) != pk.Types || fn.Name() == "PrintStackTrace" {
 				continue
 			}
 			n := 0
